@@ -1,4 +1,4 @@
-CONSTANTS Threads = {1, 2}  InIds = {"a", "b", "c"}  OutIds = {"y1", "y2"}  MaxLen = 2  ReqsPerThread = 2  CheckDupsFirst = TRUE
+CONSTANTS Threads = {1, 2}  InIds = {"a", "b", "c"}  OutIds = {"y1", "y2"}  MaxLen = 2  ReqsPerThread = 2  MatchMode = "sorted_equal"
 SPECIFICATION Spec
 VIEW View
 INVARIANT PlanFitsRequest
